@@ -356,8 +356,10 @@ struct Recorder {
 
   void inst_common(vj::W& w, const InstNode* in) {
     String nm;
-    InstAPI::inst_id_to_string(arch, in->inst_id(), InstStringifyOptions::kNone, nm);
+    InstId real_id = Environment::is_family_arm(arch) ? BaseInst::extract_real_id(in->inst_id()) : in->inst_id();
+    InstAPI::inst_id_to_string(arch, real_id, InstStringifyOptions::kNone, nm);
     w.kv("i", nm.data());
+    if (Environment::is_family_arm(arch)) w.kv("cc", int(BaseInst::extract_arm_cond_code(in->inst_id())));
     w.key("ops").beginArr();
     for (const Operand& op : in->operands()) operand(w, op);
     w.endArr();
@@ -538,4 +540,140 @@ int main(int argc, char** argv) {
   return 3;
 }
 
-static FuncNode* build_a64(a64::Compiler& cc, const Prog& p) { (void)cc; (void)p; fprintf(stderr, "a64 builder missing\n"); exit(3); }
+// ---------------------------------------------------------------------------------------------------------
+// AArch64 expansion (Leg 1 only: cannot execute here)
+// ---------------------------------------------------------------------------------------------------------
+static arm::CondCode a64_cc(const std::string& c) {
+  if (c == "e") return arm::CondCode::kEQ;
+  if (c == "ne") return arm::CondCode::kNE;
+  if (c == "b") return arm::CondCode::kLO;
+  if (c == "ae") return arm::CondCode::kHS;
+  if (c == "be") return arm::CondCode::kLS;
+  return arm::CondCode::kHI;
+}
+
+struct JTabA { Label table; std::vector<Label> targets; };
+
+static FuncNode* build_a64(a64::Compiler& cc, const Prog& p) {
+  const vj::Value& prog = *p.prog;
+  std::vector<a64::Gp> v(p.nv + 1);
+  for (unsigned i = 1; i <= p.nv; i++) v[i] = cc.new_gp32("v%u", i);
+  a64::Gp outp = cc.new_gp_ptr("outp");
+  a64::Mem stk = cc.new_stack(NS * 4, 4, "stk");
+  std::map<long long, Label> labels;
+  auto L = [&](long long id) -> Label { auto it = labels.find(id); if (it != labels.end()) return it->second; Label l = cc.new_label(); labels[id] = l; return l; };
+  std::vector<JTabA> tabs;
+
+  FuncNode* fn = cc.add_func(FuncSignature::build<uint32_t, uint32_t, uint32_t, void*>());
+  fn->set_arg(0, v[1]);
+  fn->set_arg(1, v[2]);
+  fn->set_arg(2, outp);
+  auto mask = [&](const a64::Gp& r) { cc.and_(r, r, 0xFFFF); };
+  auto tmp_imm = [&](long long imm) { a64::Gp t = cc.new_gp32("imm"); cc.mov(t, imm); return t; };
+  auto stkcell = [&](long long k) { return stk.clone_adjusted(4 * k); };
+
+  for (auto& I : prog.arr) {
+    const std::string& op = I[0].s();
+    auto R = [&](size_t k) -> a64::Gp& { return v[size_t(I[k].i())]; };
+    if (op == "movi") cc.mov(R(1), I[2].i());
+    else if (op == "mov") cc.mov(R(1), R(2));
+    else if (op == "add") { cc.add(R(1), R(1), R(2)); mask(R(1)); }
+    else if (op == "sub") { cc.sub(R(1), R(1), R(2)); mask(R(1)); }
+    else if (op == "imul") { cc.mul(R(1), R(1), R(2)); mask(R(1)); }
+    else if (op == "and") cc.and_(R(1), R(1), R(2));
+    else if (op == "or") cc.orr(R(1), R(1), R(2));
+    else if (op == "xor") cc.eor(R(1), R(1), R(2));
+    else if (op == "addi") { cc.add(R(1), R(1), tmp_imm(I[2].i())); mask(R(1)); }
+    else if (op == "subi") { cc.sub(R(1), R(1), tmp_imm(I[2].i())); mask(R(1)); }
+    else if (op == "muli") { cc.mul(R(1), R(1), tmp_imm(I[2].i())); mask(R(1)); }
+    else if (op == "andi") cc.and_(R(1), R(1), tmp_imm(I[2].i()));
+    else if (op == "ori") cc.orr(R(1), R(1), tmp_imm(I[2].i()));
+    else if (op == "neg") { cc.neg(R(1), R(1)); mask(R(1)); }
+    else if (op == "not") { cc.mvn(R(1), R(1)); mask(R(1)); }
+    else if (op == "xorself") cc.eor(R(1), R(1), R(1));
+    else if (op == "shl") { cc.lsl(R(1), R(1), R(2)); mask(R(1)); }
+    else if (op == "shr") cc.lsr(R(1), R(1), R(2));
+    else if (op == "sar") cc.asr(R(1), R(1), R(2));
+    else if (op == "label") cc.bind(L(I[1].i()));
+    else if (op == "jmp") cc.b(L(I[1].i()));
+    else if (op == "jcc") { cc.cmp(R(2), R(3)); cc.b(a64_cc(I[1].s()), L(I[4].i())); }
+    else if (op == "jcci") { cc.cmp(R(2), tmp_imm(I[3].i())); cc.b(a64_cc(I[1].s()), L(I[4].i())); }
+    else if (op == "jtab") {
+      a64::Gp t = cc.new_gp_ptr("jt_idx");
+      a64::Gp off = cc.new_gp_ptr("jt_off");
+      a64::Gp tgt = cc.new_gp_ptr("jt_tgt");
+      JTabA jt;
+      jt.table = cc.new_label();
+      cc.and_(t.w(), R(1), 3);
+      cc.adr(tgt, jt.table);
+      cc.ldrsw(off, a64::ptr(tgt, t, a64::lsl(2)));
+      cc.add(tgt, tgt, off);
+      JumpAnnotation* ann = cc.new_jump_annotation();
+      for (auto& l : I[2].arr) { jt.targets.push_back(L(l.i())); ann->add_label(L(l.i())); }
+      cc.br(tgt, ann);
+      tabs.push_back(jt);
+    }
+    else if (op == "setcc") {
+      a64::Gp t = cc.new_gp32("cs");
+      cc.cmp(R(2), R(3));
+      cc.cset(t, a64_cc(I[1].s()));
+      cc.and_(R(4), R(4), 0xFF00);
+      cc.orr(R(4), R(4), t);
+    }
+    else if (op == "cmov") { cc.cmp(R(2), R(3)); cc.csel(R(4), R(5), R(4), a64_cc(I[1].s())); }
+    else if (op == "div" || op == "idiv") {
+      a64::Gp q = cc.new_gp32("q");
+      cc.udiv(q, R(2), R(3));
+      cc.msub(R(1), q, R(3), R(2));
+      cc.mov(R(2), q);
+    }
+    else if (op == "mul") { cc.mul(R(2), R(2), R(3)); mask(R(2)); cc.mov(R(1), 0); }
+    else if (op == "xchg") { a64::Gp t = cc.new_gp32("xt"); cc.mov(t, R(1)); cc.mov(R(1), R(2)); cc.mov(R(2), t); }
+    else if (op == "cmpxchg") {
+      a64::Gp t = cc.new_gp32("cx");
+      cc.cmp(R(3), R(1));
+      cc.csel(t, R(2), R(1), arm::CondCode::kEQ);
+      cc.csel(R(3), R(3), R(1), arm::CondCode::kEQ);
+      cc.mov(R(1), t);
+    }
+    else if (op == "st") cc.str(R(2), a64::ptr(outp, int32_t(4 * I[1].i())));
+    else if (op == "ld") cc.ldr(R(1), a64::ptr(outp, int32_t(4 * I[2].i())));
+    else if (op == "sst") cc.str(R(2), stkcell(I[1].i()));
+    else if (op == "sld") cc.ldr(R(1), stkcell(I[2].i()));
+    else if (op == "sstx" || op == "sldx") {
+      bool st = op == "sstx";
+      a64::Gp t = cc.new_gp_ptr("sx_idx");
+      a64::Gp base = cc.new_gp_ptr("sx_base");
+      cc.and_(t.w(), st ? R(1) : R(2), NS - 1);
+      cc.load_address_of(base, stk);
+      if (st) cc.str(R(2), a64::ptr(base, t, a64::lsl(2))); else cc.ldr(R(1), a64::ptr(base, t, a64::lsl(2)));
+    }
+    else if (op == "call1") {
+      InvokeNode* inv;
+      cc.invoke(Out(inv), imm((void*)helper1), FuncSignature::build<uint32_t, uint32_t, uint32_t>());
+      inv->set_arg(0, R(2));
+      inv->set_arg(1, R(3));
+      inv->set_ret(0, R(1));
+    }
+    else if (op == "call2") {
+      InvokeNode* inv;
+      cc.invoke(Out(inv), imm((void*)helper2), FuncSignature::build<uint32_t, uint32_t, uint32_t, uint32_t, uint32_t, uint32_t, uint32_t, uint32_t, uint32_t>());
+      for (unsigned k = 0; k < 8; k++) inv->set_arg(k, v[size_t(I[2][k].i())]);
+      inv->set_ret(0, R(1));
+    }
+    else if (op == "initall") { for (long long r = I[1].i(); r <= I[2].i(); r++) cc.mov(v[size_t(r)], init_const(uint32_t(r))); }
+    else if (op == "fold") {
+      a64::Gp k31 = cc.new_gp32("k31");
+      cc.mov(k31, 31);
+      for (long long r = I[2].i(); r <= I[3].i(); r++) { cc.mul(R(1), R(1), k31); cc.add(R(1), R(1), v[size_t(r)]); mask(R(1)); }
+    }
+    else if (op == "ret") cc.ret(R(1));
+    else { fprintf(stderr, "unknown op %s\n", op.c_str()); exit(3); }
+  }
+  cc.end_func();
+  for (auto& jt : tabs) {
+    cc.bind(jt.table);
+    for (auto& t : jt.targets) cc.embed_label_delta(t, jt.table, 4);
+  }
+  return fn;
+}
